@@ -65,6 +65,8 @@ pub struct Monitors {
     /// C07 L4: tasks that were reserved on a lost worker by a redirect while another worker was
     /// still asked to give them back; watched until they are schedulable again
     requeue_watch: BTreeSet<tako::TaskId>,
+    /// C08 K6: the other members of the last RetractTasks message that named a task
+    retracted_with: BTreeMap<Tid, Vec<Tid>>,
     /// C08 K4: how the last execution that ended on a worker ended
     last_end_on: BTreeMap<Wid, (EndHow, Tid)>,
     // C08
@@ -289,7 +291,17 @@ impl Monitors {
                             srv_cancel_sent_to.insert((*to_w, *t));
                         }
                     }
-                    ToWorkerLite::Retract(ids) => self.count("retract.sent", ids.len() as u64),
+                    ToWorkerLite::Retract(ids) => {
+                        self.count("retract.sent", ids.len() as u64);
+                        self.count("retract.messages", 1);
+                        if ids.iter().any(|t| t.0 != ids[0].0) {
+                            self.count("retract.messages_naming_two_jobs", 1);
+                        }
+                        // remembered for C08 K6: who was asked back together with whom
+                        for t in ids {
+                            self.retracted_with.insert(*t, ids.clone());
+                        }
+                    }
                     ToWorkerLite::Compute(ts) => {
                         self.count("compute.sent", ts.len() as u64);
                         self.count(
@@ -662,6 +674,20 @@ impl Monitors {
                             "S4-retraction-unresolved-at-rest",
                             format!("at rest task {:?} is still being retracted from worker {worker_id} although no message is in flight", conv::tid(t.id)),
                         );
+                        // C08: "tasks of other jobs are unaffected" - the task was asked back in one
+                        // message together with a task of a job that was canceled meanwhile
+                        let me = conv::tid(t.id);
+                        if !self.canceled_tasks.contains(&me) {
+                            if let Some(c) = self.retracted_with.get(&me).and_then(|ids| ids.iter().find(|o| o.0 != me.0 && self.canceled_tasks.contains(o))) {
+                                viol(
+                                    out,
+                                    step,
+                                    "C08",
+                                    "K6-task-of-other-job-left-retracting-after-cancel",
+                                    format!("at rest task {me:?} (its job was never canceled) is still being retracted from worker {worker_id}; it was asked back in one RetractTasks message with {c:?}, whose job was canceled before the answer arrived"),
+                                );
+                            }
+                        }
                         break;
                     }
                 }
@@ -896,6 +922,14 @@ impl Monitors {
                 *self.job_failed.entry(t.0).or_insert(0) += 1;
             }
             Ev::TasksCanceled(ts) => {
+                // coverage of the rarest cancel window: a canceled task is being asked back from a
+                // worker in one message with a task of another job that is still being asked back
+                if let Some(pc) = &self.prev_core {
+                    let retracting: BTreeSet<Tid> = pc.tasks.iter().filter(|x| matches!(x.state, TaskStateSnapshot::Retracting { .. })).map(|x| conv::tid(x.id)).collect();
+                    if ts.iter().any(|t| retracting.contains(t) && self.retracted_with.get(t).map(|ids| ids.iter().any(|o| o.0 != t.0 && retracting.contains(o))).unwrap_or(false)) {
+                        self.count("cancel.during_retraction_shared_with_other_job", 1);
+                    }
+                }
                 for t in ts {
                     terminal(self, *t, "canceled", out);
                     self.canceled_tasks.insert(*t);
@@ -2243,6 +2277,7 @@ impl Monitors {
         self.retract_confirmed.clear();
         self.requeue_watch.clear();
         self.last_end_on.clear();
+        self.retracted_with.clear();
         self.exec_instances.clear();
         self.mn_sets.clear();
         self.journal_seq.clear();
